@@ -216,6 +216,38 @@ def generate(rng, tier, focus):
             acts.insert(rng.randrange(len(acts) - 1, len(acts) + 1), ["unsub", 0])
         acts.append(["push", 0, n(9)])
         cases.append((scn(srcs=[src([fail, second], rng.random() < 0.3), src([second], False)], handles=1, script_=acts), {"k": "recover-probed-sibling"}))
+    # flat_map whose inner observables churn (three hot inner sources; an older one completes, a newer one is opened while a third
+    # is still running), ended by unsubscribe / take / an error: no inner source may keep an observer
+    for _ in range(1500 if thorough else 250):
+        x, y, z = rng.sample([1, 2, 3], 3)
+        val = lambda h: rng.choice([h - 1, h + 2])          # (v mod 3) + 1 == h
+        noise = lambda hs: [["emit", rng.choice(hs), n(rng.choice([7, 8, 9]))] for _ in range(rng.choice([0, 0, 1]))]
+        evs = [["emit", 0, n(val(x))]] + noise([x]) + [["emit", 0, n(val(y))]] + noise([x, y]) + [["emit", x, C]] + noise([y]) + \
+              [["emit", 0, n(val(z))]] + noise([y, z])
+        p = op("flat_map", [["mod"]], ["hot", 0], ["hot", 1], ["hot", 2], ["hot", 3])
+        how = rng.choice(["unsub", "unsub", "error", "take"])
+        if how == "unsub":
+            evs.append(["unsub", 0])
+        elif how == "error":
+            evs.append(["emit", rng.choice([0, z]), e(7)])
+        else:
+            p = op("take", [sum(1 for a in evs if a[0] == "emit" and a[1] != 0 and a[2][0] == "n") + 1], p)
+            evs.append(["emit", z, n(9)])
+        cases.append((scn(subjects=[["subject"]] * 4, handles=1, script_=[sub(0, p)] + evs + [["emit", y, n(5)]]), {"k": "flat_map-churn"}))
+    # recovery over a SHARED hot source (ref_count of a subject): the resubscription is made from inside the sharing subject's error
+    # notification; when the subscriber finally leaves, the source must be released
+    for _ in range(1200 if thorough else 200):
+        how = rng.choice(["retry", "retry", "retry_when", "resume"])
+        if how == "retry":
+            p = op("retry", [rng.choice([0, 3])], ["conn", 0])
+        elif how == "retry_when":
+            p = op("retry_when", [["always"]], ["conn", 0])
+        else:
+            p = op("on_error_resume_next", [], ["conn", 0], ["conn", 0])
+        acts = [sub(0, p)] + [["emit", 0, n(rng.choice(items))] for _ in range(rng.randrange(0, 3))] + [["emit", 0, e(rng.choice([1, 2]))]]
+        acts += [["emit", 0, n(rng.choice(items))] for _ in range(rng.randrange(0, 3))]
+        acts += rng.choice([[["unsub", 0]], [["unsub", 0]], [["emit", 0, C]]]) + [["emit", 0, n(9)]]
+        cases.append((scn(subjects=[["subject"]], conns=[["refcount", ["hot", 0]]], handles=1, script_=acts), {"k": "recover-shared-hot"}))
     # hot sources: subjects must not keep the observer
     kinds = [["subject"], ["behavior", 0], ["replay"], ["async"]]
     for _ in range(5000 if thorough else 700):
